@@ -982,7 +982,7 @@ func (ctx *RenderContext) EvaluateExpression(node Node) (interface{}, error) {
 				// Evaluate the object
 				obj, err := ctx.EvaluateExpression(getAttrNode.node)
 				if err != nil {
-					return false, nil // If can't evaluate the object, it's not defined
+					return false, err
 				}
 
 				// If obj is nil, attribute not defined
@@ -993,7 +993,7 @@ func (ctx *RenderContext) EvaluateExpression(node Node) (interface{}, error) {
 				// Evaluate the attribute name
 				attrNameNode, err := ctx.EvaluateExpression(getAttrNode.attribute)
 				if err != nil {
-					return false, nil
+					return false, err
 				}
 
 				attrName, ok := attrNameNode.(string)
